@@ -262,6 +262,51 @@ impl PoolResult {
     self.machinery_errors.extend(other.machinery_errors);
     self.wall += other.wall;
   }
+  /// for stages that run in another build of the harness (a worker process): the whole result
+  /// as JSON, and back
+  pub fn to_json(&self) -> J {
+    let viol = J::Arr(self.violations.iter().map(|v| J::obj().set("key", J::s(v.key.as_str())).set("count", J::u(v.count)).set("detail", v.detail.clone())).collect());
+    J::obj()
+      .set("cases_done", J::u(self.cases_done))
+      .set("cases_total", J::u(self.cases_total))
+      .set("distinct", J::u(self.distinct))
+      .set("counters", J::Arr(self.counters.iter().map(|c| J::u(*c)).collect()))
+      .set("crashes", J::u(self.crashes))
+      .set("capped", J::Bool(self.capped))
+      .set("wall_ms", J::u(self.wall.as_millis() as u64))
+      .set("samples", J::Arr(self.samples.clone()))
+      .set("violations", viol)
+      .set("machinery", J::Arr(self.machinery_errors.iter().map(|m| J::s(m.as_str())).collect()))
+  }
+  pub fn from_json(m: &J, who: &str) -> PoolResult {
+    let mut r = PoolResult::empty();
+    let num = |k: &str| m.int_of(k).max(0) as u64;
+    r.cases_done = num("cases_done");
+    r.cases_total = num("cases_total");
+    r.distinct = num("distinct");
+    if let Some(cs) = m.get("counters").and_then(|v| v.as_arr()) {
+      for (i, c) in cs.iter().enumerate().take(NCOUNTERS) {
+        r.counters[i] = c.as_i64().unwrap_or(0).max(0) as u64;
+      }
+    }
+    r.crashes = num("crashes");
+    r.capped = matches!(m.get("capped"), Some(J::Bool(true)));
+    r.wall = Duration::from_millis(num("wall_ms"));
+    if let Some(ss) = m.get("samples").and_then(|v| v.as_arr()) {
+      r.samples = ss.iter().cloned().collect();
+    }
+    if let Some(vs) = m.get("violations").and_then(|v| v.as_arr()) {
+      for v in vs {
+        r.violations.push(Violation { key: v.str_of("key"), count: v.int_of("count").max(1) as u64, detail: v.get("detail").cloned().unwrap_or(J::Null) });
+      }
+    }
+    if let Some(ms) = m.get("machinery").and_then(|v| v.as_arr()) {
+      for x in ms {
+        r.machinery_errors.push(format!("{}: {}", who, x.as_str().unwrap_or("")));
+      }
+    }
+    r
+  }
   pub fn empty() -> PoolResult {
     PoolResult {
       cases_total: 0,
